@@ -3,7 +3,7 @@ parameters are 1-D (so that `ax, ay, az = a` yields scalars), what is documented
 
 # ---------------------------------------------------------------- external functions (dotted suffix after the module alias)
 # result is a NEW object that shares no memory with the arguments
-NP_FRESH = set('''array copy zeros ones empty full identity eye zeros_like ones_like empty_like full_like arange linspace
+NP_FRESH = set('''array copy zeros ones full identity eye zeros_like ones_like full_like arange linspace
 sqrt sin cos tan arcsin arccos arctan arctan2 sinh cosh tanh exp log log10 log2 cbrt square abs absolute fabs sign floor ceil
 round around rint trunc power mod fmod hypot deg2rad rad2deg radians degrees maximum minimum fmax fmin clip
 sum prod mean std var median nansum nanmean nanstd nanmax nanmin max min amax amin ptp cumsum cumprod diff gradient
@@ -127,3 +127,13 @@ SHARED_RETURN_OK = set()
 CARRIED_SCALARS = set()
 # attributes whose assignment changes the array object itself (the caller sees another shape / dtype / layout / flags)
 ARRAY_HEADER_ATTRS = {'shape', 'dtype', 'strides', 'writeable', 'flags'}
+
+# allocations whose elements are whatever the heap held: the result depends on earlier, unrelated calls until every element
+# has been assigned.  pyfx binds them to the shared pseudo-object `@uninit`; a complete unconditional initialisation
+# (x[:] = / x[...] = / x.fill(v) / all k rows or columns of a literal shape written at the allocation's own nesting level)
+# re-binds the name to a fresh array.
+NP_UNINIT = set('empty empty_like ndarray'.split())
+UNINIT_ID = 'uninit:heap'
+
+# callables documented to draw the arguments that are left out at random
+RANDOM_WHEN_OMITTED = {'common.dcm.rot_seq': ('axes', 'angles')}
